@@ -566,20 +566,105 @@ class TrickStop(TrickSpec):
         ex.oblige("post[the watcher that was current when stop() began is joined]", z3.Or(z3.Not(self.w0.some), self.g["wjoined"][self.w0.val.t]))
 
 
+# ------------------------------------------------------------------------------------------------ ShellCommandTrick
+class ShellWorld(TWorld):
+    def __init__(self):
+        super().__init__()
+        from specs.common import EventWorld
+        self.PS2 = ground.usort("TPath")
+        self.EW = EventWorld(TRef("TPath", self.PS2), tag="T")
+
+    def eq(self, ex, l, r):
+        a, b = (l, r) if isinstance(l, VOpaque) else (r, l)
+        if isinstance(a, VOpaque) and a.kind == "event_type" and isinstance(b, str):
+            names = [n for n in self.EW.names if self.EW.classes[n]["event_type"] == b]
+            return z3.Or(*[a.data == self.EW.cls[n] for n in names]) if names else False
+        return NotImplemented
+
+    def hasattr(self, ex, obj, name):
+        return True
+
+    def setattr(self, ex, obj, name, v):
+        if isinstance(obj, VRef) and obj.ty is self.Watcher and name == "process_termination_callback":
+            ex.spec.callbacks_set.append((obj.t, v))
+            return None
+        return NotImplemented
+
+
+class ShellOnAnyEvent(TrickSpec):
+    def __init__(self, W):
+        self.W, self.world = W, W
+        self.qualname = "ShellCommandTrick.on_any_event"
+        self.name = "on_any_event"
+
+    inline = {"ShellCommandTrick.is_process_running"}
+
+    def globals(self):
+        W = self.W
+        g = TrickSpec.globals(self)
+        g.update({"string.Template": lambda ex, a, k, n: VOpaque("template"), "template.safe_substitute": lambda ex, recv, a, k, n: VOpaque("command"),
+                  "functools.partial": lambda ex, a, k, n: VOpaque("partial", a)})
+        return g
+
+    def setup(self, ex):
+        W = self.W
+        self.setup_common(ex)
+        self.me.cls = "ShellCommandTrick"
+        H = ex.heap
+        self.drop = ex.fresh_term(z3.BoolSort(), "drop_during_process")
+        self.wait = ex.fresh_term(z3.BoolSort(), "wait_for_process")
+        H[(self.me.id, "drop_during_process")] = VBool(self.drop)
+        H[(self.me.id, "wait_for_process")] = VBool(self.wait)
+        H[(self.me.id, "shell_command")] = VOpt(ex.fresh_term(z3.BoolSort(), "has_command"), VOpaque("shell_command"))
+        self.watchers0 = ex.fresh(TSet(W.Watcher), "_process_watchers")
+        H[(self.me.id, "_process_watchers")] = self.watchers0
+        self.ev = ex.fresh_term(W.EW.EvS, "event")
+        self.callbacks_set = []
+        w = z3.Const("rw", W.WS)
+        self.running0 = z3.Or(z3.Exists([w], self.watchers0.t[w]), z3.And(self.proc0.some, self.g["alive"][self.proc0.val.t]))
+        return {"self": self.me, "event": W.EW.Event.wrap(self.ev)}
+
+    def post(self, ex, result):
+        W, EW = self.W, self.W.EW
+        H = ex.heap
+        c = EW.e_cls(self.ev)
+        quiet = z3.Or(c == EW.cls["FileOpenedEvent"], c == EW.cls["FileClosedNoWriteEvent"])
+        n = len(self.spawned)
+        ex.oblige("post[at most one command per event]", n <= 1)
+        if n == 0:
+            ex.oblige("post[no command only for opened/closed-no-write events, or when asked to drop while a command runs]", z3.Or(quiet, z3.And(self.drop, self.running0)))
+            return
+        p = self.spawned[0]
+        ex.oblige("post[never for opened / closed-no-write events]", z3.Not(quiet))
+        w0 = z3.Const("rw0", W.WS)
+        still = z3.Or(z3.Exists([w0], self.watchers0.t[w0]), z3.And(self.proc0.some, self.g["alive"][self.proc0.val.t]))
+        ex.oblige("post[drop_during_process: no command while the previous one is (still) running]", z3.Not(z3.And(self.drop, still)))
+        ex.oblige("post[wait_for_process: the command has exited when the handler returns]", z3.Implies(self.wait, z3.Not(self.g["alive"][p])))
+        if self.new_watchers:
+            w, a = self.new_watchers[0]
+            now = H[(self.me.id, "_process_watchers")]
+            ex.oblige("post[not waiting: one watcher for the new command, registered, with its clean-up callback, started]",
+                      z3.And(z3.Not(self.wait), z3.BoolVal(len(self.new_watchers) == 1), a[0].t == p, now.t[w], self.g["wstarted"][w], z3.BoolVal(len(self.callbacks_set) == 1)))
+        else:
+            ex.oblige("post[no watcher only when waiting for the command]", self.wait)
+
+
 def make_specs():
     W = DWorld()
     T = TrickWorld()
-    return [HandleEvent(W), Stop(W), Run(W), PWRun(), StopProcess(T), StartProcess(T), RestartProcess(T), TrickStop(T)]
+    return [HandleEvent(W), Stop(W), Run(W), PWRun(), StopProcess(T), StartProcess(T), RestartProcess(T), TrickStop(T), ShellOnAnyEvent(ShellWorld())]
 
 
 EXPECTED_CLAUSES = ["EventDebouncer.run.callback[batch = every event handed in since the last batch", "EventDebouncer.run.callback[not after stop()", "EventDebouncer.run.wait-predicate[untimed wait only while nothing is pending",
                     "EventDebouncer.handle_event.with-exit[I:delivered ++ pending = handled", "EventDebouncer.stop.post[stop flag set]", "ProcessWatcher.run.post[callback at most once]",
                     "AutoRestartTrick._stop_process.post[unless a stop is already in progress: the old child is not alive]", "AutoRestartTrick._start_process.post[exactly one child spawned]",
-                    "AutoRestartTrick._restart_process.post[old child stopped first", "AutoRestartTrick.stop.post[trick marked stopping"]
+                    "AutoRestartTrick._restart_process.post[old child stopped first", "AutoRestartTrick.stop.post[trick marked stopping", "ShellCommandTrick.on_any_event.post[wait_for_process",
+                    "ShellCommandTrick.on_any_event.post[drop_during_process"]
 CANARIES = [
     {"name": "unguarded first wait (the repaired defect)", "file": DEB, "fn": "EventDebouncer.run", "find": "                while not self._events and self.should_keep_running():\n                    self._cond.wait()\n", "replace": "                self._cond.wait()\n"},
     {"name": "callback before the stopped check", "file": DEB, "fn": "EventDebouncer.run", "find": "                if not self.should_keep_running():\n                    break\n\n                events = self._events", "replace": "                events = self._events"},
     {"name": "handle_event without notify", "file": DEB, "fn": "EventDebouncer.handle_event", "find": "            self._cond.notify()\n", "replace": ""},
+    {"name": "ShellCommandTrick ignores drop_during_process", "file": TR, "fn": "ShellCommandTrick.on_any_event", "find": "        if self.drop_during_process and self.is_process_running():\n            return\n", "replace": ""},
     {"name": "_restart_process ignores _is_trick_stopping", "file": TR, "fn": "AutoRestartTrick._restart_process", "find": "        if self._is_trick_stopping:\n            return\n        self._stop_process()", "replace": "        self._stop_process()"},
 ]
 TRUSTED = ["E7 threading.Condition (wait releases and re-acquires atomically; wait(timeout) returns False on time-out), threading.Event", "E11 process table: Popen creates a live child; poll()/wait() as documented; OSError from kill_process means the process is gone; SIGKILL ends it",
@@ -587,4 +672,4 @@ TRUSTED = ["E7 threading.Condition (wait releases and re-acquires atomically; wa
 ASSUMPTIONS = ["rely: other threads only run handle_event/stop sections on the debouncer (handled only grows, stop flag monotone)", "AutoRestartTrick contracts are sequential (single-threaded): its process / process_watcher fields are not lock-protected"]
 UNDECIDED_PARTS = ["'never more than one child alive' across the watcher thread and the event thread: no lock invariant exists to carry it (a suspected double-spawn interleaving is recorded in DESIGN.md section 6, not claimed)",
                    "debounce timing is decided only as: a batch is delivered after a timed wait expired without a notify", "'its thread always exits on stop()' is liveness: the wait-predicate discipline is the proved necessary condition",
-                   "ShellCommandTrick (wait/drop options) is covered by the bounded battery only"]
+                   "ShellCommandTrick: sequential contract of on_any_event only (its watcher threads clean up _process_watchers concurrently: not covered)"]
